@@ -218,10 +218,14 @@ class Check(PropertyCheck):
                         sp = env.observation_space
                         ssp = single.observation_space      # the episode's own (initial-graph) sizes
                         n_nodes, n_edges = ssp["removed_nodes"].n, ssp["edge_index"].shape[1]
-                        if n_nodes > sp["removed_nodes"].n or n_edges > sp["edge_index"].shape[1]:
+                        bigger = [k for k in ssp.spaces if k in sp.spaces and any(
+                            a > b for a, b in zip(ssp[k].shape, sp[k].shape))]
+                        if n_nodes > sp["removed_nodes"].n or n_edges > sp["edge_index"].shape[1] or bigger:
                             key = "multi-env-space-undersized"
-                            why = (f": the episode's graph has {n_nodes} nodes / {n_edges} edges, the spaces declared at "
-                                   f"construction hold {sp['removed_nodes'].n} nodes / {sp['edge_index'].shape[1]} edges "
+                            why = (f": the episode needs {n_nodes} nodes / {n_edges} edges / "
+                                   f"{ {k: ssp[k].shape for k in bigger} }, the spaces declared at construction from "
+                                   f"the sample instance hold {sp['removed_nodes'].n} nodes / {sp['edge_index'].shape[1]} "
+                                   f"edges / { {k: sp[k].shape for k in bigger} } "
                                    f"(generator {scenario.meta['params']}, builder {scenario.meta['builder']})")
                     except Exception:  # pylint: disable=broad-except
                         pass
